@@ -43,7 +43,9 @@ class DenseTimeInterpreter(TimeInterpreter):
         elif len(node.end_unit) == 0:
             e_unit = node.begin_unit
 
-        b = b * (self.ast.U[self.ast.unit] / self.ast.U[b_unit])
-        e = e * (self.ast.U[self.ast.unit] / self.ast.U[e_unit])
+        # convert the bounds from their own unit to the default unit, in which
+        # the time stamps of the signals are expressed
+        b = b * (self.ast.U[b_unit] / self.ast.U[self.ast.unit])
+        e = e * (self.ast.U[e_unit] / self.ast.U[self.ast.unit])
 
         return b, e
